@@ -1,12 +1,581 @@
-//! Component `range`: protocol runner (real code), case generator, implementation-level oracles.
-//! (stub; owned by the component's author)
+//! Component `range`: protocol runner (real code), case generator, implementation-level oracles
+//! for `RangeEncoder` / `RangeDecoder` (src/stream/queue.rs).
 #![allow(unused)]
+use std::num::NonZeroUsize;
+
+use constriction::backends::{BoundedReadWords, Cursor, ReadWords};
+use constriction::stream::queue::{EncoderSituation, RangeCoderState, RangeDecoder, RangeEncoder};
+use constriction::stream::{Code, Decode, Encode};
+use constriction::{BitArray, CoderError, Pos, Queue, Seek};
+use num_traits::AsPrimitive;
+
+use crate::rawmodel::{RawEnc, TableModel};
 use crate::util::*;
 
-pub fn run(_segs: &[Vec<&str>]) -> String {
-    "bad-op".into()
+type Enc<C> = RangeEncoder<<C as RangeCombo>::W, <C as RangeCombo>::S>;
+type Dec<C> =
+    RangeDecoder<<C as RangeCombo>::W, <C as RangeCombo>::S, Cursor<<C as RangeCombo>::W, Vec<<C as RangeCombo>::W>>>;
+
+pub trait RangeCombo {
+    type W: BitArray + Into<Self::S>;
+    type S: BitArray + AsPrimitive<Self::W>;
+    /// `None` = this (B, P) is not compiled in
+    fn enc(c: &mut RangeEncoder<Self::W, Self::S>, b: u32, p: u32, cp: Option<(u128, u128)>) -> Option<String>;
+    /// encode symbol `s` with the table model
+    fn enc_sym(c: &mut RangeEncoder<Self::W, Self::S>, b: u32, p: u32, cdf: &[u128], s: usize) -> Option<String>;
+    fn dec<Bk: ReadWords<Self::W, Queue>>(d: &mut RangeDecoder<Self::W, Self::S, Bk>, b: u32, p: u32, cdf: &[u128]) -> Option<String>;
 }
 
-pub fn gen(_rng: &mut Rng, _tier: &str, _out: &mut Vec<String>) {}
+fn enc_result<E>(r: Result<(), CoderError<constriction::DefaultEncoderFrontendError, E>>) -> String {
+    match r {
+        Ok(()) => "ok".into(),
+        Err(CoderError::Frontend(_)) => "impossible".into(),
+        Err(CoderError::Backend(_)) => "full".into(),
+    }
+}
 
-pub fn oracle(_rng: &mut Rng, _tier: &str, _rep: &mut Report) {}
+fn enc_impl<W, S, Pr, const P: usize>(c: &mut RangeEncoder<W, S>, cp: Option<(u128, u128)>) -> String
+where
+    W: BitArray + Into<S> + AsPrimitive<Pr>,
+    S: BitArray + AsPrimitive<W>,
+    Pr: BitArray + Into<W>,
+{
+    let m = RawEnc::<Pr, P> { cp: cp.map(|(c, p)| (from_u128(c), from_u128(p))) };
+    enc_result(c.encode_symbol(0usize, m))
+}
+
+fn enc_sym_impl<W, S, Pr, const P: usize>(c: &mut RangeEncoder<W, S>, cdf: &[u128], s: usize) -> String
+where
+    W: BitArray + Into<S> + AsPrimitive<Pr>,
+    S: BitArray + AsPrimitive<W>,
+    Pr: BitArray + Into<W>,
+{
+    let m = TableModel::<Pr, P>::new(cdf.to_vec());
+    enc_result(c.encode_symbol(s, &m))
+}
+
+fn dec_impl<W, S, Pr, Bk, const P: usize>(d: &mut RangeDecoder<W, S, Bk>, cdf: &[u128]) -> String
+where
+    W: BitArray + Into<S> + AsPrimitive<Pr>,
+    S: BitArray + AsPrimitive<W>,
+    Pr: BitArray + Into<W>,
+    Bk: ReadWords<W, Queue>,
+{
+    let m = TableModel::<Pr, P>::new(cdf.to_vec());
+    match d.decode_symbol(&m) {
+        Ok(s) => hex(s as u128),
+        Err(CoderError::Frontend(_)) => "invalid_data".into(),
+        Err(CoderError::Backend(_)) => "readerr".into(),
+    }
+}
+
+macro_rules! impl_range_combo {
+    ($name:ident, $W:ty, $S:ty; $($B:ty => [$($P:literal),*]);*) => {
+        impl RangeCombo for $name {
+            type W = $W;
+            type S = $S;
+            fn enc(c: &mut RangeEncoder<$W, $S>, b: u32, p: u32, cp: Option<(u128, u128)>) -> Option<String> {
+                match (b, p) {
+                    $($( (bb, $P) if bb == <$B>::BITS => Some(enc_impl::<$W, $S, $B, $P>(c, cp)), )*)*
+                    _ => None,
+                }
+            }
+            fn enc_sym(c: &mut RangeEncoder<$W, $S>, b: u32, p: u32, cdf: &[u128], s: usize) -> Option<String> {
+                match (b, p) {
+                    $($( (bb, $P) if bb == <$B>::BITS => Some(enc_sym_impl::<$W, $S, $B, $P>(c, cdf, s)), )*)*
+                    _ => None,
+                }
+            }
+            fn dec<Bk: ReadWords<$W, Queue>>(d: &mut RangeDecoder<$W, $S, Bk>, b: u32, p: u32, cdf: &[u128]) -> Option<String> {
+                match (b, p) {
+                    $($( (bb, $P) if bb == <$B>::BITS => Some(dec_impl::<$W, $S, $B, Bk, $P>(d, cdf)), )*)*
+                    _ => None,
+                }
+            }
+        }
+    };
+}
+crate::for_each_combo!(impl_range_combo);
+
+fn words<W: BitArray>(l: &[u128]) -> Vec<W> {
+    l.iter().map(|&w| from_u128(w)).collect()
+}
+
+fn unwords<W: BitArray>(l: &[W]) -> Vec<u128> {
+    l.iter().map(|&w| to_u128(w)).collect()
+}
+
+/// `x < 2^bits` (bits may be 128)
+fn fits(x: u128, bits: u32) -> bool {
+    bits >= 128 || x < (1u128 << bits)
+}
+
+fn mask(bits: u32) -> u128 {
+    if bits >= 128 {
+        u128::MAX
+    } else {
+        (1u128 << bits) - 1
+    }
+}
+
+fn mk_state<C: RangeCombo>(lower: u128, range: u128) -> Option<RangeCoderState<C::W, C::S>> {
+    let sb = <C::S as BitArray>::BITS as u32;
+    if !fits(lower, sb) || !fits(range, sb) {
+        return None;
+    }
+    RangeCoderState::new(from_u128::<C::S>(lower), from_u128::<C::S>(range)).ok()
+}
+
+fn mk_sit<C: RangeCombo>(n: u128, first: u128) -> EncoderSituation<C::W> {
+    if n == 0 {
+        EncoderSituation::Normal
+    } else {
+        EncoderSituation::Inverted(NonZeroUsize::new(n as usize).unwrap(), from_u128::<C::W>(first))
+    }
+}
+
+fn show_sit<W: BitArray>(sit: &EncoderSituation<W>) -> String {
+    match sit {
+        EncoderSituation::Normal => "normal".into(),
+        EncoderSituation::Inverted(n, f) => format!("inv {:x} {:x}", n.get(), to_u128(*f)),
+    }
+}
+
+fn show_enc<C: RangeCombo>(e: &Enc<C>) -> String {
+    let (bulk, state, sit) = e.clone().into_raw_parts();
+    format!(
+        "{} {:x} {:x} {}",
+        show_list(unwords(&bulk)),
+        to_u128(state.lower()),
+        to_u128(state.range().get()),
+        show_sit(&sit)
+    )
+}
+
+fn show_dec<C: RangeCombo>(d: &Dec<C>) -> String {
+    let (cursor, state, point) = d.clone().into_raw_parts();
+    format!(
+        "{:x} {:x} {:x} {:x}",
+        cursor.pos(),
+        to_u128(state.lower()),
+        to_u128(state.range().get()),
+        to_u128(point)
+    )
+}
+
+fn export<C: RangeCombo>(e: &Enc<C>) -> Vec<u128> {
+    unwords(&e.clone().into_compressed().unwrap())
+}
+
+fn parse_triples(toks: &[&str]) -> Option<Vec<(u32, u32, Vec<u128>)>> {
+    if toks.len() % 3 != 0 {
+        return None;
+    }
+    let mut v = Vec::new();
+    for t in toks.chunks(3) {
+        v.push((parse_hex(t[0])? as u32, parse_hex(t[1])? as u32, parse_list(t[2])?));
+    }
+    Some(v)
+}
+
+/// decode one symbol per triple; `syms exhausted?` / `syms invalid_data`
+fn dec_many<C: RangeCombo, Bk: ReadWords<C::W, Queue>>(
+    d: &mut RangeDecoder<C::W, C::S, Bk>,
+    ts: &[(u32, u32, Vec<u128>)],
+) -> String {
+    let mut out = Vec::new();
+    for (b, p, cdf) in ts {
+        match C::dec(d, *b, *p, cdf) {
+            None => return "unsupported".into(),
+            Some(o) => match parse_hex(&o) {
+                Some(s) if o != "invalid_data" => out.push(s),
+                _ => return format!("{} {}", show_list(out), o),
+            },
+        }
+    }
+    format!("{} {}", show_list(out), d.maybe_exhausted())
+}
+
+fn run_hist<C: RangeCombo>(segs: &[Vec<&str>]) -> String {
+    let kind = segs[0][0];
+    let init = &segs[1];
+    let mut enc: Option<Enc<C>> = None;
+    let mut dec: Option<Dec<C>> = None;
+    let mut snaps: Vec<(usize, RangeCoderState<C::W, C::S>)> = Vec::new();
+    let mut spec_ok = false;
+    macro_rules! pl {
+        ($e:expr) => {
+            match parse_list($e) {
+                Some(l) => l,
+                None => return "bad-op".into(),
+            }
+        };
+    }
+    macro_rules! ph {
+        ($e:expr) => {
+            match parse_hex($e) {
+                Some(l) => l,
+                None => return "bad-op".into(),
+            }
+        };
+    }
+    match (kind, init.as_slice()) {
+        ("range", ["new"]) => {
+            enc = Some(RangeEncoder::new());
+            spec_ok = true;
+        }
+        ("range", ["with", ws]) => {
+            enc = Some(RangeEncoder::with_backend(words::<C::W>(&pl!(ws))));
+            spec_ok = true;
+        }
+        ("range", ["raw", ws, lo, r, n, first]) => {
+            let l = pl!(ws);
+            let (lo, r, n, first) = (ph!(lo), ph!(r), ph!(n), ph!(first));
+            match mk_state::<C>(lo, r) {
+                Some(st) => enc = Some(RangeEncoder::from_raw_parts(words::<C::W>(&l), st, mk_sit::<C>(n, first))),
+                None => return "err".into(),
+            }
+        }
+        ("rangedec", ["words", ws]) => {
+            dec = Some(RangeDecoder::from_compressed(words::<C::W>(&pl!(ws))).unwrap());
+        }
+        ("rangedec", ["rawdec", ws, pos, lo, r, pt]) => {
+            let l = pl!(ws);
+            let (pos, lo, r, pt) = (ph!(pos), ph!(lo), ph!(r), ph!(pt));
+            let cursor = match Cursor::new_at_pos(words::<C::W>(&l), pos as usize) {
+                Ok(c) => c,
+                Err(_) => return "err".into(),
+            };
+            let st = match mk_state::<C>(lo, r) {
+                Some(st) => st,
+                None => return "err".into(),
+            };
+            match RangeDecoder::from_raw_parts(cursor, st, from_u128::<C::S>(pt)) {
+                Ok(d) => dec = Some(d),
+                Err(_) => return "err".into(),
+            }
+        }
+        _ => return "bad-op".into(),
+    }
+    let mut outs: Vec<String> = vec!["ok".into()];
+    for seg in &segs[2..] {
+        let r = guarded(|| -> Option<String> {
+            if let Some(coder) = enc.as_mut() {
+                Some(match seg.as_slice() {
+                    ["enc", b, p, cum, pr] => C::enc(
+                        coder,
+                        parse_hex(b)? as u32,
+                        parse_hex(p)? as u32,
+                        Some((parse_hex(cum)?, parse_hex(pr)?)),
+                    )
+                    .unwrap_or("unsupported".into()),
+                    ["encnone", b, p] => C::enc(coder, parse_hex(b)? as u32, parse_hex(p)? as u32, None)
+                        .unwrap_or("unsupported".into()),
+                    ["export"] => show_list(export::<C>(coder)),
+                    ["getc"] => {
+                        let g = coder.get_compressed();
+                        show_list(unwords(&g))
+                    }
+                    ["decoder", rest @ ..] => {
+                        let ts = parse_triples(rest)?;
+                        let mut d = coder.decoder();
+                        dec_many::<C, _>(&mut d, &ts)
+                    }
+                    ["nw"] => hex(coder.num_words() as u128),
+                    ["nb"] => hex(coder.num_bits() as u128),
+                    ["empty"] => format!("{}", coder.is_empty()),
+                    ["pos"] | ["snap"] => {
+                        let (n, st) = coder.pos();
+                        if seg[0] == "snap" {
+                            snaps.push((n, st));
+                        }
+                        format!("{:x} {:x} {:x}", n, to_u128(st.lower()), to_u128(st.range().get()))
+                    }
+                    ["raw"] => show_enc::<C>(coder),
+                    ["clone"] => {
+                        *coder = coder.clone();
+                        "ok".into()
+                    }
+                    ["clear"] => {
+                        coder.clear();
+                        spec_ok = false;
+                        "ok".into()
+                    }
+                    ["intodec"] => {
+                        let e = enc.take().unwrap();
+                        dec = Some(e.into_decoder().unwrap());
+                        "ok".into()
+                    }
+                    ["spec"] => {
+                        if spec_ok {
+                            show_list(export::<C>(coder))
+                        } else {
+                            "n/a".into()
+                        }
+                    }
+                    _ => return None,
+                })
+            } else {
+                let d = dec.as_mut().unwrap();
+                let mut do_seek = |d: &mut Dec<C>, pos: usize, lo: u128, r: u128| -> String {
+                    match mk_state::<C>(lo, r) {
+                        None => "badstate".into(),
+                        Some(st) => match d.seek((pos, st)) {
+                            Ok(()) => "ok".into(),
+                            Err(()) => "err".into(),
+                        },
+                    }
+                };
+                Some(match seg.as_slice() {
+                    ["dec", b, p, cdf] => C::dec(d, parse_hex(b)? as u32, parse_hex(p)? as u32, &parse_list(cdf)?)
+                        .unwrap_or("unsupported".into()),
+                    ["seek", pos, lo, r] => do_seek(d, parse_hex(pos)? as usize, parse_hex(lo)?, parse_hex(r)?),
+                    ["seekto", i] => {
+                        let (pos, st) = *snaps.get(parse_hex(i)? as usize)?;
+                        match d.seek((pos, st)) {
+                            Ok(()) => "ok".into(),
+                            Err(()) => "err".into(),
+                        }
+                    }
+                    ["exhausted"] => format!("{}", d.maybe_exhausted()),
+                    ["raw"] => show_dec::<C>(d),
+                    ["clone"] => {
+                        *d = d.clone();
+                        "ok".into()
+                    }
+                    _ => return None,
+                })
+            }
+        });
+        match r {
+            Ok(Some(s)) => outs.push(s),
+            Ok(None) => {
+                outs.push("bad-op".into());
+                break;
+            }
+            Err(class) => {
+                outs.push(class.into());
+                break;
+            }
+        }
+    }
+    outs.join(" | ")
+}
+
+// ---------------------------------------------------------------------------------------
+// single-step sweeps
+
+fn digest_list(h: u64, l: &[u128]) -> u64 {
+    let mut h = digest_step(h, l.len() as u128);
+    for &x in l {
+        h = digest_step(h, x);
+    }
+    h
+}
+
+fn all_cp(p: u32) -> Vec<(u128, u128)> {
+    let total = 1u128 << p;
+    let mut v = Vec::new();
+    for cum in 0..total {
+        for p1 in 0..(total - cum) {
+            v.push((cum, p1 + 1));
+        }
+    }
+    v
+}
+
+fn sits(firsts: &[u128]) -> Vec<(u128, u128)> {
+    let mut v = vec![(0, 0)];
+    for &f in firsts {
+        v.push((1, f));
+        v.push((2, f));
+        v.push((3, f));
+    }
+    v
+}
+
+fn class_code(class: &str) -> u128 {
+    match class {
+        "panic:overflow" => 3,
+        "panic:shift" => 4,
+        _ => 5,
+    }
+}
+
+fn enc_sweep<C: RangeCombo>(w: u32, s: u32, b: u32, p: u32, los: &[u128], rs: &[u128], fs: &[u128]) -> String {
+    let cps = all_cp(p);
+    let sits = sits(fs);
+    let mut count: u128 = 0;
+    let mut h = DIGEST_INIT;
+    for &lo in los {
+        for &r in rs {
+            if (r >> (s - w)) == 0 || !fits(r, s) || !fits(lo, s) {
+                count += 1;
+                h = digest_step(h, 9);
+                continue;
+            }
+            let st = mk_state::<C>(lo, r).unwrap();
+            for &(n, f) in &sits {
+                for &(cum, pr) in &cps {
+                    let res = guarded(|| {
+                        let mut e: Enc<C> = RangeEncoder::from_raw_parts(Vec::new(), st, mk_sit::<C>(n, f));
+                        let o = C::enc(&mut e, b, p, Some((cum, pr)));
+                        (o, e)
+                    });
+                    match res {
+                        Ok((Some(o), e)) if o == "ok" => {
+                            h = digest_step(h, 1);
+                            let (bulk, state, sit) = e.into_raw_parts();
+                            h = digest_list(h, &unwords(&bulk));
+                            h = digest_step(h, to_u128(state.lower()));
+                            h = digest_step(h, to_u128(state.range().get()));
+                            match sit {
+                                EncoderSituation::Normal => h = digest_step(h, 0),
+                                EncoderSituation::Inverted(n, f) => {
+                                    h = digest_step(h, 1);
+                                    h = digest_step(h, n.get() as u128);
+                                    h = digest_step(h, to_u128(f));
+                                }
+                            }
+                        }
+                        Ok((Some(_), _)) => h = digest_step(h, 2),
+                        Ok((None, _)) => return "unsupported".into(),
+                        Err(class) => h = digest_step(h, class_code(class)),
+                    }
+                    let sealed = guarded(|| {
+                        let e: Enc<C> = RangeEncoder::from_raw_parts(Vec::new(), st, mk_sit::<C>(n, f));
+                        unwords(&e.into_compressed().unwrap())
+                    });
+                    match sealed {
+                        Ok(ws) => h = digest_list(h, &ws),
+                        Err(_) => h = digest_step(h, 7),
+                    }
+                    count += 1;
+                }
+            }
+        }
+    }
+    format!("{:x} {:x}", count, h)
+}
+
+fn dec_sweep<C: RangeCombo>(w: u32, s: u32, b: u32, p: u32, los: &[u128], rs: &[u128], pts: &[u128], cdf: &[u128]) -> String {
+    let data: Vec<C::W> = vec![from_u128::<C::W>(0x5a & mask(w))];
+    let mut count: u128 = 0;
+    let mut h = DIGEST_INIT;
+    for &lo in los {
+        for &r in rs {
+            for &pt in pts {
+                count += 1;
+                if (r >> (s - w)) == 0 || !fits(r, s) || !fits(lo, s) || !fits(pt, s) {
+                    h = digest_step(h, 8);
+                    continue;
+                }
+                let st = mk_state::<C>(lo, r).unwrap();
+                let cursor = Cursor::new_at_pos(data.clone(), 0).unwrap();
+                let d0: Dec<C> = match RangeDecoder::from_raw_parts(cursor, st, from_u128::<C::S>(pt)) {
+                    Ok(d) => d,
+                    Err(_) => {
+                        h = digest_step(h, 9);
+                        continue;
+                    }
+                };
+                let res = guarded(|| {
+                    let mut d = d0.clone();
+                    let o = C::dec(&mut d, b, p, cdf);
+                    (o, d)
+                });
+                match res {
+                    Ok((Some(o), d)) if o == "invalid_data" => h = digest_step(h, 2),
+                    Ok((Some(o), d)) => {
+                        h = digest_step(h, 1);
+                        h = digest_step(h, parse_hex(&o).unwrap_or(u128::MAX));
+                        let (cursor, state, point) = d.into_raw_parts();
+                        h = digest_step(h, cursor.pos() as u128);
+                        h = digest_step(h, to_u128(state.lower()));
+                        h = digest_step(h, to_u128(state.range().get()));
+                        h = digest_step(h, to_u128(point));
+                    }
+                    Ok((None, _)) => return "unsupported".into(),
+                    Err(class) => h = digest_step(h, class_code(class)),
+                }
+                h = digest_step(h, if d0.maybe_exhausted() { 1 } else { 0 });
+            }
+        }
+    }
+    format!("{:x} {:x}", count, h)
+}
+
+fn run_combo<C: RangeCombo>(segs: &[Vec<&str>]) -> String {
+    let head = &segs[0];
+    let w = <C::W as BitArray>::BITS as u32;
+    let s = <C::S as BitArray>::BITS as u32;
+    match head[0] {
+        "range" | "rangedec" => {
+            if head.len() != 3 || segs.len() < 2 {
+                return "bad-op".into();
+            }
+            run_hist::<C>(segs)
+        }
+        "rangesweep" => {
+            if head.len() != 8 || segs.len() != 1 {
+                return "bad-op".into();
+            }
+            let f = || -> Option<String> {
+                Some(enc_sweep::<C>(
+                    w,
+                    s,
+                    parse_hex(head[3])? as u32,
+                    parse_hex(head[4])? as u32,
+                    &parse_list(head[5])?,
+                    &parse_list(head[6])?,
+                    &parse_list(head[7])?,
+                ))
+            };
+            f().unwrap_or("bad-op".into())
+        }
+        "rangedecsweep" => {
+            if head.len() != 9 || segs.len() != 1 {
+                return "bad-op".into();
+            }
+            let f = || -> Option<String> {
+                Some(dec_sweep::<C>(
+                    w,
+                    s,
+                    parse_hex(head[3])? as u32,
+                    parse_hex(head[4])? as u32,
+                    &parse_list(head[5])?,
+                    &parse_list(head[6])?,
+                    &parse_list(head[7])?,
+                    &parse_list(head[8])?,
+                ))
+            };
+            f().unwrap_or("bad-op".into())
+        }
+        _ => "bad-op".into(),
+    }
+}
+
+pub fn run(segs: &[Vec<&str>]) -> String {
+    let head = &segs[0];
+    if head.len() < 3 {
+        return "bad-op".into();
+    }
+    let (w, s) = match (parse_hex(head[1]), parse_hex(head[2])) {
+        (Some(w), Some(s)) => (w, s),
+        _ => return "bad-op".into(),
+    };
+    match (w, s) {
+        (8, 16) => run_combo::<C8x16>(segs),
+        (8, 32) => run_combo::<C8x32>(segs),
+        (8, 64) => run_combo::<C8x64>(segs),
+        (16, 32) => run_combo::<C16x32>(segs),
+        (16, 64) => run_combo::<C16x64>(segs),
+        (32, 64) => run_combo::<C32x64>(segs),
+        (32, 128) => run_combo::<C32x128>(segs),
+        (64, 128) => run_combo::<C64x128>(segs),
+        _ => "unsupported".into(),
+    }
+}
+
+include!("range_gen.rs");
+include!("range_oracle.rs");
